@@ -43,9 +43,13 @@ def main():
     ap = argparse.ArgumentParser()
     ap.add_argument("-j", type=int, default=5)
     ap.add_argument("--tier", default="quick")
+    ap.add_argument("--dir", default="seeded",
+                    help="seeded (property-breaking changes: exit 1 expected) or harmless "
+                         "(behaviour-preserving rewrites: exit 0 expected)")
     ap.add_argument("ids", nargs="*")
     args = ap.parse_args()
-    sdir = os.path.join(VERIF, "seeded")
+    sdir = os.path.join(VERIF, args.dir)
+    harmless = args.dir != "seeded"
     ids = args.ids or sorted(d for d in os.listdir(sdir) if os.path.isdir(os.path.join(sdir, d)))
     rpath = os.path.join(sdir, "RESULTS.json")
     results = json.load(open(rpath)) if os.path.exists(rpath) else {}
@@ -74,8 +78,10 @@ def main():
                            env=dict(os.environ, VERIF_REPO=f"{d}/repo"))
                     lines = [l for l in r.stdout.split("\n") if l.startswith(("VIOLATION", "KNOWN-FINDING", "CHECK-ERROR"))]
                     status = {0: "MISSED", 1: "caught"}.get(r.returncode, f"exit {r.returncode}")
+                    if harmless:
+                        status = {0: "quiet", 1: "ALARM"}.get(r.returncode, f"exit {r.returncode}")
                     if r.returncode == 1 and all("no-failing-input-found" in l for l in lines if l.startswith("VIOLATION")):
-                        status = "caught (no failing input found)"
+                        status = "ALARM (no failing input found)" if harmless else "caught (no failing input found)"
                     res = {"property": prop, "status": status, "tier": args.tier, "lines": lines[:6],
                            "wall_s": round(time.time() - t0, 1), "summary": r.stdout.strip().split("\n")[-1][:300]}
                 except subprocess.TimeoutExpired:
@@ -98,6 +104,14 @@ def main():
         sh(f"git -C {VERIF} worktree remove --force {d}/verif")
     sh(f"rm -rf {BASE}; git -C /repo worktree prune; git -C {VERIF} worktree prune")
     json.dump(results, open(rpath, "w"), indent=1, sort_keys=True)
+    if harmless:
+        with open(os.path.join(sdir, "RESULTS.md"), "w") as f:
+            f.write("# Behaviour-preserving rewrites: expected quiet (exit 0)\n\n| change | property | result |\n|---|---|---|\n")
+            for sid in sorted(results):
+                f.write(f"| {sid} | {results[sid]['property']} | {results[sid]['status']} |\n")
+        loud = [s for s in ids if results.get(s, {}).get("status") != "quiet"]
+        print(f"{len(ids)} harmless changes run, {len(loud)} not quiet: {loud}")
+        return
     write_md(sdir, results)
     missed = [s for s in ids if results.get(s, {}).get("status") == "MISSED"]
     print(f"{len(ids)} seeded changes run, {len(missed)} missed: {missed}")
